@@ -3,6 +3,7 @@ import CanvasProofs.Lemmas.C13Core
 import CanvasProofs.Lemmas.C13Close
 import CanvasProofs.Lemmas.C13Num
 import CanvasProofs.Lemmas.C13Pages
+import CanvasProofs.Lemmas.C13ParseE
 
 /-! # C13 — every PDF produced is structurally valid: theorems about the writer model
 `Canvas.C13` (hand-written model of /repo/renderers/pdf/writer.go, tied by correspondence).
@@ -10,6 +11,7 @@ All theorems quantify over arbitrary operation histories `ops`, arbitrary values
 environment `env` (zlib, clock, contents of the font objects). -/
 namespace C13
 open Canvas.C13 C13L
+open Canvas.C13.P (parseVal norm size)
 
 /-- `pos` is the number of bytes written, after any history. -/
 theorem pos_tracks_length (env : Env) (ops : List Op) (s : St) (h : run env {} ops = some s) :
@@ -138,6 +140,34 @@ example : writeString [0x0D] = [0x28, 0x5C, 0x72, 0x29] := by decide
 /-- text strings: ASCII as is, otherwise UTF-16BE with BOM; decoding returns the code points -/
 theorem text_roundtrip (rs : List Nat) (h : ∀ r ∈ rs, r < 0xD800 ∨ (0xE000 ≤ r ∧ r < 0x110000)) :
     decodeText (encodeText rs) = rs := decodeText_encodeText rs h
+
+/-! ### nested values: serialise, then parse -/
+
+/-- For EVERY value tree of booleans, integers, printed numbers, strings, references, names, arrays
+and dictionaries (names regular, numbers of digits/sign/point, dictionary entries given in the
+writer's canonical order), the object parser reads the serialisation back as the same tree
+(integers as their text) and stops exactly at the tail, which may be empty or start with a delimiter. -/
+theorem value_roundtrip (v : Val) (T : Bytes) (hw : wf v = true)
+    (hT : T = [] ∨ ∃ c T', T = c :: T' ∧ Canvas.C13.Rd.isDelim c = true) :
+    parseVal (size v) (ser v ++ T) = some (norm v, T) := by
+  have ht : Tail T := by
+    rcases hT with rfl | ⟨c, T', rfl, hc⟩
+    · exact Tail.nil
+    · exact Tail.delim c T' hc
+  exact rt_val v (size v) T hw ht (Nat.le_refl _)
+
+/-- the canonical-order hypothesis inside `wf` holds for: optional Type entry, optional Subtype
+entry, then the remaining keys strictly increasing -/
+theorem canonical_order_ok (tE sE : Option Entry) (rest : List Entry)
+    (ht : ∀ e, tE = some e → e.1 = kType) (hs : ∀ e, sE = some e → e.1 = kSubtype)
+    (hn : noTS rest = true) (hsrt : sortedKeys rest = true) :
+    canonOK (optList tE ++ optList sE ++ rest) = true :=
+  canonOK_of_canonical tE sE rest ht hs hn hsrt
+
+/-- non-vacuity: a nested page-like dictionary satisfies the hypotheses -/
+example : wf (.dict [(asc "Type", .name (asc "Page")), (asc "Subtype", .name (asc "X")),
+    (asc "A", .arr [.num (asc "1.5"), .str [0x28, 0x0D], .bool true, .arr []]),
+    (asc "Res", .dict [(asc "F0", .num (asc "-2"))])]) = true := by decide
 
 /-! ### document information -/
 
